@@ -3,6 +3,7 @@
 from __future__ import annotations
 
 import ast
+import copy
 from fractions import Fraction
 from typing import Dict, List, Optional, Tuple
 
@@ -259,6 +260,9 @@ def _accept_interval(repo: Repo, ci: ClassInfo, fn: ast.FunctionDef, depth: int 
         raise _NoInterval("validator takes more than the value")
     x = params[0]
     env: Dict[str, alg.Poly] = {}
+    from .. import inline
+    # flag locals written into the tests that read them; early `return` guards read as the enclosing condition of the rest
+    fn = inline.nest_guard_clauses(inline.resolve_flags(copy.deepcopy(fn)))
 
     def leaf(e):
         if norm(e) == "self.min":
@@ -527,6 +531,13 @@ def pattern_value(repo: Repo, rep, P: str):
                 return alg.Rat(alg.Poly.sym("min"))
             if norm(e) == f"{tvar}.max":
                 return alg.Rat(alg.Poly.sym("max"))
+            if isinstance(e, (ast.Name, ast.Attribute)):
+                try:
+                    c = repo.fold(e, ci=ctl)             # module / class constant (e.g. the 0x8000 scale given a name)
+                except (NotConst, AnchorMissing):
+                    return None
+                if isinstance(c, int) and not isinstance(c, bool):
+                    return alg.Rat(alg.Poly.const(c))
             return None
         v, mn, mx = alg.Poly.sym("v"), alg.Poly.sym("min"), alg.Poly.sym("max")
         where = f"{rel}:{fn.lineno}"
@@ -547,6 +558,7 @@ def pattern_value(repo: Repo, rep, P: str):
             r = alg.to_rat(inner, leaf)
         except alg.NotAlgebraic as e:
             rep.inconclusive(f"{P}.R3", construct, label, f"not a rational function: {e}", where)
+            seen["compact" if is_compact else "scaled"] = True
             continue
         if is_compact:
             seen["compact"] = True
@@ -591,45 +603,101 @@ def dependent_parent(repo: Repo, rep, P: str):
     rel = dr.file.rel
     construct = f"{rel}:DependentRange.parent"
     rep.func("rv.controller.DependentRange.parent")
+    from .. import inline, guards
+    from ..packed import single_defs
+    from . import c14
+    fn = inline.split_ifexp_returns(inline.normalize(repo, dr, fn, aliases=True))
+    ip = [a.arg for a in fn.args.args if a.arg != "self"][0]
     g = CFG(fn)
-    rets = [n for n in g.nodes if n.kind == "stmt" and isinstance(n.ast, ast.Return)]
-    dom = g.dominators()
-    picks = [r for r in rets if "self.range_map[" in norm(r.ast)]
-    defaults = [r for r in rets if norm(r.ast.value) == "self.default"]
-    if not picks:
-        rep.violation(f"{P}.R4", construct, "; ".join(norm(r.ast) for r in rets),
+    paths = g.paths(g.entry, [g.exit], max_visits=1, limit=2000, labels_excluded=("exc",))
+    defs = single_defs(fn)
+    L = f"{ip}.controllers_loaded"
+    key_forms = (f"{ip}.controller_values.get(self.ctl_name, None)", f"{ip}.controller_values.get(self.ctl_name)",
+                 f"{ip}.controller_values[self.ctl_name]")
+    not_loaded = {guards.canon_text(f"not {L}"), guards.canon_text(f"self.ctl_name not in {L}"),
+                  guards.nnf(ast.parse(f"not {L} or self.ctl_name not in {L}", mode="eval").body)}
+    picked = 0
+    problems: List[Tuple[str, str, str]] = []       # (kind, text, why)
+    # the selection is a function of the unit controller's CURRENT value: parent() reads nothing but the range table, the default,
+    # the loaded set and the stored values, and writes nothing (a remembered result would survive a change of the unit)
+    allowed = {"self": {"ctl_name", "range_map", "default"}, ip: {"controllers_loaded", "controller_values"}}
+    for n in ast.walk(fn):
+        if isinstance(n, ast.Attribute) and isinstance(n.value, ast.Name) and n.value.id in allowed:
+            if isinstance(n.ctx, ast.Store) or n.attr not in allowed[n.value.id]:
+                problems.append(("bad", norm(n), f"the selected range depends on other state ({norm(n)}): it must be derived from the unit "
+                                 "controller's current value on every call"))
+        if isinstance(n, ast.Subscript) and isinstance(n.ctx, (ast.Store, ast.Del)):
+            problems.append(("bad", norm(n), "parent() stores into a table: the selected range must be derived from the unit controller's "
+                             "current value on every call, not remembered"))
+    if problems:
+        for _, t, why in problems[:2]:
+            rep.violation(f"{P}.R4", construct, t, why, f"{rel}:{fn.lineno}")
+        paths = []
+        problems = []
+        picked = -1
+    for path in paths or []:
+        known = c14._facts(c14._path_tests(g, path))
+        rets = [g.nodes[nid].ast for nid, _ in path if g.nodes[nid].kind == "stmt" and isinstance(g.nodes[nid].ast, ast.Return)]
+        val = rets[-1].value if rets else None
+        if isinstance(val, ast.Subscript) and norm(val.value) == "self.range_map":
+            k = val.slice
+            kdef = defs.get(k.id) if isinstance(k, ast.Name) else k
+            if kdef is None or norm(kdef) not in key_forms:
+                problems.append(("bad", norm(val), "range_map must be indexed by the unit controller's current value"))
+                continue
+            need = {guards.canon_text(f"self.ctl_name in {L}"), guards.canon_text(f"{norm(k)} is not None")}
+            if not need <= known:
+                problems.append(("bad", norm(val), f"a range is selected from range_map without establishing {sorted(need - known)} "
+                                 "(the unit controller must be loaded and hold a value)"))
+            else:
+                picked += 1
+        elif val is not None and norm(val) == "self.default":
+            keys_none = {f"{n} is None" for n, d in defs.items() if norm(d) in key_forms}
+            if not ((not_loaded | keys_none) & known):
+                problems.append(("bad", "return self.default", "the default range may be used only while the unit controller is not loaded "
+                                 f"or holds no value; this path knows only {sorted(known)}"))
+        else:
+            problems.append(("?", norm(val) if val is not None else "return", "result not recognised"))
+    if paths is None or any(k == "?" for k, _, _ in problems):
+        rep.inconclusive(f"{P}.R4", construct, "; ".join(t for k, t, _ in problems if k == "?") or norm(fn)[:120],
+                         "selection of the dependent range not recognised", f"{rel}:{fn.lineno}")
+    elif picked == -1:
+        pass
+    elif not picked and not problems:
+        rep.violation(f"{P}.R4", construct, norm(fn)[:160],
                       "the range of a unit-dependent controller is never selected from range_map: every unit uses the default range",
                       f"{rel}:{fn.lineno}")
-        return
-    pick = picks[0]
-    # the key is the unit controller's current value
-    key_ok = False
-    for n in walk_no_nested(fn):
-        if isinstance(n, ast.Assign) and isinstance(n.targets[0], ast.Name) and "controller_values.get(self.ctl_name" in norm(n.value):
-            kv = n.targets[0].id
-            if f"self.range_map[{kv}]" in norm(pick.ast):
-                key_ok = True
-    if key_ok:
-        rep.ok(f"{P}.R4", construct, norm(pick.ast), "range selected by the unit controller's stored value")
+    elif problems:
+        for _, t, why in problems:
+            rep.violation(f"{P}.R4", construct, t, why, f"{rel}:{fn.lineno}")
     else:
-        rep.violation(f"{P}.R4", construct, norm(pick.ast), "range_map must be indexed by the unit controller's current value", f"{rel}:{pick.lineno}")
-    # default only when the unit is not loaded (or its value is None)
-    src = norm(fn)
-    if "if not loaded or self.ctl_name not in loaded:" in src and "loaded = instance.controllers_loaded" in src:
-        rep.ok(f"{P}.R4", construct, "if not loaded or self.ctl_name not in loaded: return self.default",
-               "default range only while the unit controller has not been loaded")
-    else:
-        rep.violation(f"{P}.R4", construct, src[:200], "the default range may be used only while the unit controller is not loaded",
-                      f"{rel}:{fn.lineno}")
+        rep.ok(f"{P}.R4", construct, "self.range_map[<unit value>]", "range selected by the unit controller's stored value")
+        rep.ok(f"{P}.R4", construct, "return self.default", "default range only while the unit controller has not been loaded / has no value")
     # instance_value_type goes through parent()
     ctl = repo.cls("Controller", module="rv.controller")
-    ivt = repo.own_method(ctl, "instance_value_type")
-    s = norm(ivt)
-    if "hasattr(self.value_type, 'parent')" in s and "return self.value_type.parent(instance)" in s:
+    ivt0 = repo.own_method(ctl, "instance_value_type")
+    ivt = inline.as_expression(inline.normalize(repo, ctl, ivt0, aliases=True))
+    s = norm(ivt) if ivt is not None else norm(ivt0)
+    ip2 = [a.arg for a in ivt0.args.args if a.arg != "self"][0]
+    verdict = "?"
+    if isinstance(ivt, ast.IfExp):
+        f_true = guards.facts(ivt.test, True)
+        has = "hasattr(self.value_type, 'parent')"
+        dyn, plain = f"self.value_type.parent({ip2})", "self.value_type"
+        if f_true == {has}:
+            verdict = "ok" if (norm(ivt.body), norm(ivt.orelse)) == (dyn, plain) else "bad"
+        elif f_true == {guards.canon_text(f"not {has}")}:
+            verdict = "ok" if (norm(ivt.orelse), norm(ivt.body)) == (dyn, plain) else "bad"
+    elif ivt is not None and not any(isinstance(n, ast.Call) and isinstance(n.func, ast.Attribute) and n.func.attr == "parent" for n in ast.walk(ivt)):
+        verdict = "bad"
+    if verdict == "ok":
         rep.ok(f"{P}.R4", f"{rel}:Controller.instance_value_type", "value_type.parent(instance) for dependent ranges")
-    else:
+    elif verdict == "bad":
         rep.violation(f"{P}.R4", f"{rel}:Controller.instance_value_type", s[:160], "dependent ranges must be resolved through parent(instance)",
-                      f"{rel}:{ivt.lineno}")
+                      f"{rel}:{ivt0.lineno}")
+    else:
+        rep.inconclusive(f"{P}.R4", f"{rel}:Controller.instance_value_type", s[:160], "resolution of dependent ranges not recognised",
+                         f"{rel}:{ivt0.lineno}")
 
 
 def range_inventory(repo: Repo, rep, P: str):
